@@ -61,6 +61,11 @@ pub struct SfCase {
     pub handler: bool,
     pub calls: Vec<SfCall>,
     pub plan: Vec<SinkAns>,
+    /// the error handler itself reports the failure with a quiet send on a second, healthy client
+    /// (a "count what we dropped" handler): the quiet form must be usable while another quiet send
+    /// is in flight on the same thread
+    #[serde(default)]
+    pub reentrant_handler: bool,
 }
 
 pub struct E1;
@@ -323,7 +328,7 @@ impl Engine for E1 {
     }
 
     fn required_probes(_focus: &str) -> &'static [&'static str] {
-        &["invalid_value_rejected", "sink_refused_try_send", "sink_refused_quiet", "handler_called", "ok_after_error", "all_entry_points", "boundary_value_accepted", "invalid_in_packed_list"]
+        &["invalid_value_rejected", "sink_refused_try_send", "sink_refused_quiet", "handler_called", "ok_after_error", "all_entry_points", "boundary_value_accepted", "invalid_in_packed_list", "reentrant_handler_ran"]
     }
 
     fn generate(rng: &mut Rng, _focus: &str, tier: Tier) -> SfCase {
@@ -342,6 +347,7 @@ impl Engine for E1 {
         }
         let default_container = if cfg.chance(1, 4) { Some("c0ntainer".to_string()) } else { None };
         let handler = cfg.chance(3, 4);
+        let reentrant_handler = handler && cfg.chance(1, 3);
         let n = 1 + prog.usize_below(if tier == Tier::Thorough { 40 } else { 24 });
         let mut calls = Vec::new();
         for _ in 0..n {
@@ -392,7 +398,7 @@ impl Engine for E1 {
                 }
             })
             .collect();
-        SfCase { prefix, default_tags, default_container, handler, calls, plan }
+        SfCase { prefix, default_tags, default_container, handler, calls, plan, reentrant_handler }
     }
 
     fn sweep(case: &SfCase, o: &Outcome) -> Vec<SfCase> {
@@ -433,6 +439,11 @@ impl Engine for E1 {
         if !case.prefix.is_empty() {
             let mut c = case.clone();
             c.prefix.clear();
+            v.push(c);
+        }
+        if case.reentrant_handler {
+            let mut c = case.clone();
+            c.reentrant_handler = false;
             v.push(c);
         }
         if !case.default_tags.is_empty() {
@@ -482,9 +493,14 @@ fn run(case: &SfCase, out: &mut Outcome, want_trace: bool) {
     }
     if case.handler {
         let l2 = logs.clone();
+        let fallback: Option<Arc<StatsdClient>> = if case.reentrant_handler { Some(Arc::new(StatsdClient::from_sink("fallback", cadence::NopMetricSink))) } else { None };
         b = b.with_error_handler(move |e: MetricError| {
             let p = err_parts(&e);
             l2.lock().unwrap().handler.push(p);
+            if let Some(f) = &fallback {
+                f.count_with_tags("metrics.dropped", 1).with_tag("from", "handler").send();
+                f.gauge_with_tags("metrics.last_error", 1u64).send();
+            }
         });
     }
     let client = b.build();
@@ -603,6 +619,9 @@ fn run(case: &SfCase, out: &mut Outcome, want_trace: bool) {
                 }
                 if want == 1 {
                     out.probe("handler_called");
+                    if case.reentrant_handler {
+                        out.probe("reentrant_handler_ran");
+                    }
                     let (kind, src, disp) = &new_handler[0];
                     if !valid {
                         if kind != "InvalidInput" {
